@@ -4,4 +4,4 @@ set -e
 cd "$(dirname "$0")"
 . ./env.sh
 cd harness
-go build -o ../bin/vcheck ./cmd/vcheck
+go build -tags verif -o ../bin/vcheck ./cmd/vcheck
